@@ -61,3 +61,37 @@ Proof.
                Rules.initial_position)) i 0 <? 13) = true) by (vm_compute; reflexivity).
     apply N.ltb_lt. exact (forallN_spec _ _ H i Hi).
 Qed.
+
+(* ---- whole games, with no hypothesis about intermediate states ----
+   game_inv (Chess/ValidStep.v) is the part of valid_position that legal play preserves: both kings exactly once, the side that has just moved
+   not in check, no pawn on a back rank, castling rights and en-passant square consistent with the board (Chess/GameInv.v: game_inv_step).
+   Engine/GameRefine.v lifts the per-move theorems to every legal line from every legal position; the only side condition left is that the
+   8-bit half-move counter does not wrap (clock + number of moves < 255; FIDE-legal games stay below 150). *)
+From CV Require Import Chess.History Chess.HistoryKeys Chess.ValidStep Chess.GameInv Engine.KeyScratchInit Engine.HistoryRefine Engine.GameRefine.
+From Coq Require Import List ZArith.
+Import ListNotations.
+Theorem C02_legal_positions_satisfy_the_game_invariant : forall p, valid_position p = true -> game_inv p.
+Proof. exact valid_game_inv. Qed.
+Print Assumptions C02_legal_positions_satisfy_the_game_invariant.
+
+Theorem C02_every_legal_move_keeps_the_game_invariant : forall p m, game_inv p -> legal p m = true -> game_inv (make_move p m).
+Proof. exact game_inv_step. Qed.
+Print Assumptions C02_every_legal_move_keeps_the_game_invariant.
+
+(* from EVERY legal position, along EVERY legal move sequence of any length (as long as the 8-bit half-move counter does not wrap), the
+   representation built by the constructor and driven by do_move represents exactly the position the rules give *)
+Theorem C02_every_legal_game_is_played_by_the_rules :
+  forall (zt : zobrist) (p0 : position) (ms : list move),
+    valid_position p0 = true -> legal_line p0 ms = true -> (clock p0 + Z.of_nat (length ms) < 255)%Z ->
+    rep_abs (play_rep zt (rep_of_position zt p0) ms) = play p0 ms.
+Proof.
+  intros zt p0 ms Hv Hl Hn. destruct (valid_hyps p0 Hv) as [Hg [Hc Hf]].
+  exact (proj1 (game_refines zt p0 ms Hg Hc Hf Hl Hn)).
+Qed.
+Print Assumptions C02_every_legal_game_is_played_by_the_rules.
+
+Example C02_game_example :
+  valid_position initial_position = true /\
+  legal_line initial_position [Normal 12 28 None; Normal 52 36 None; Normal 6 21 None; Normal 57 42 None; Normal 5 26 None; Normal 62 45 None; Castle true] = true.
+Proof. split; vm_compute; reflexivity. Qed.
+
